@@ -15,6 +15,14 @@ import (
 
 func TestMain(m *testing.M) {
 	flag.Parse()
+	// Native fuzzing: the engine minimises every input with new coverage for up to a minute by
+	// default, which for inputs of some size (a life scenario, a notification with hundreds of
+	// entries) leaves no time for fuzzing. Half a second unless the command line says otherwise.
+	explicit := false
+	flag.Visit(func(f *flag.Flag) { explicit = explicit || f.Name == "test.fuzzminimizetime" })
+	if f := flag.Lookup("test.fuzzminimizetime"); f != nil && !explicit {
+		f.Value.Set("500ms")
+	}
 	registerImpl()
 	os.Exit(m.Run())
 }
